@@ -40,8 +40,12 @@ class DBFSURI:
                 raise NotImplementedError(
                     f"Cannot join path for {self}: {type(seg)}: {seg}"
                 )
-            if s.startswith("."):
-                s = s[1:]
+            # Relative segments ("./x"): only the reference to the current directory is dropped,
+            # a name that starts with a dot (".x") is a different name than "x".
+            if s == ".":
+                s = ""
+            elif s.startswith("./"):
+                s = s[2:]
             if s.startswith("/"):
                 s = s[1:]
             if not uri.endswith("/"):
